@@ -135,6 +135,15 @@ class SymSeq(SymBase):
         return s
 
     @staticmethod
+    def repeat(v, n, kind="tuple"):
+        from .contract import Int, Real
+
+        t, k = term_of(v)
+        shape = Int() if k == "int" else Real()
+        nt = _int_term(n)
+        return SymSeq(kind, shape, z3.If(nt >= 0, nt, z3.IntVal(0)), [z3.K(z3.IntSort(), t)])
+
+    @staticmethod
     def empty(elem, kind="list"):
         arrs = [z3.K(z3.IntSort(), _default(s)) for s in _leaf_sorts(elem)]
         return SymSeq(kind, elem, z3.IntVal(0), arrs)
@@ -255,6 +264,35 @@ class SymSeq(SymBase):
 
     def copy(self):
         return SymSeq(self.kind, self.elem, self.n, self.arrs)
+
+    # a little numpy: a 1-d integer array is modelled by a SymSeq
+    @property
+    def shape(self):
+        return (SymInt(self.n),)
+
+    @property
+    def size(self):
+        return SymInt(self.n)
+
+    def tolist(self):
+        return self.as_kind("list", copy=True)
+
+    def elementwise_differs(self, o):
+        """exists j: self[j] != o[j] (same length assumed by the caller)"""
+        j = z3.Int(ctx().fresh_name("j"))
+        neq = z3.Or(*[z3.Select(a, j) != z3.Select(b, j) for a, b in zip(self.arrs, o.arrs)])
+        return SymBool(z3.Exists([j], z3.And(j >= 0, j < self.n, neq)))
+
+    def __ne__(self, o):
+        if isinstance(o, SymSeq):
+            outer = self
+
+            class _NeResult:
+                def any(self_inner):
+                    return outer.elementwise_differs(o)
+
+            return _NeResult()
+        raise Unsupported("!= on symbolic-length sequences")
 
     def __eq__(self, o):
         if o is self:
